@@ -242,7 +242,7 @@ NOT_CLAIMED_REASON = {}
 _P = 'SqlairProofs.Props.'
 PROP_MODULES = {
     'C01': [_P + 'Parser', _P + 'Bind', _P + 'E2E', _P + 'Exact', _P + 'L2Sound'], 'C02': [_P + 'C02', _P + 'Opaque', _P + 'L2Sound'], 'C19': [_P + 'Parser', _P + 'C19Shift'],
-    'C03': [_P + 'Bind', _P + 'L2Sound', _P + 'L2RowsModel', _P + 'L2C03Vals', _P + 'L2Tokens'], 'C04': [_P + 'Bind', _P + 'L2Sound', _P + 'L2Rows', _P + 'L2RowsModel'], 'C05': [_P + 'Bind', _P + 'L2Sound', _P + 'L2RowsModel', _P + 'L2Tokens'], 'C07': [_P + 'Bind', _P + 'E2E', _P + 'Typed'], 'C08': [_P + 'Bind', _P + 'Typed'], 'C16': [_P + 'Bind', _P + 'L5Interleave'],
+    'C03': [_P + 'Bind', _P + 'L2Sound', _P + 'L2RowsModel', _P + 'L2C03Vals', _P + 'L2Tokens'], 'C04': [_P + 'Bind', _P + 'L2Sound', _P + 'L2Rows', _P + 'L2RowsModel', _P + 'L2Clauses'], 'C05': [_P + 'Bind', _P + 'L2Sound', _P + 'L2RowsModel', _P + 'L2Tokens'], 'C07': [_P + 'Bind', _P + 'E2E', _P + 'Typed'], 'C08': [_P + 'Bind', _P + 'Typed'], 'C16': [_P + 'Bind', _P + 'L5Interleave'],
     'C06': [_P + 'Scan', _P + 'L3Sound'], 'C09': [_P + 'Cache', _P + 'L4Sound', _P + 'L5Sound', _P + 'L5Interleave'], 'C10': [_P + 'Cache', _P + 'L5Sound', _P + 'L5Interleave'], 'C11': [_P + 'Cache', _P + 'L5Sound', _P + 'L5Interleave', _P + 'L5Quiescent'],
     'C12': [_P + 'Runtime', _P + 'L4Sound', _P + 'L4Clauses'], 'C13': [_P + 'Runtime', _P + 'L4Sound'], 'C14': [_P + 'Runtime', _P + 'L4Sound', _P + 'L2Rows'], 'C15': [_P + 'Runtime', _P + 'L4Sound', _P + 'L4Clauses'], 'C20': [_P + 'Runtime', _P + 'L4Sound'],
     'C17': [_P + 'Store', _P + 'Bind', _P + 'Scan', _P + 'E2E'], 'C18': [_P + 'Parser', _P + 'Runtime', _P + 'NoPanic'],
